@@ -41,6 +41,8 @@ Alphabet(i) ==
     [] Fam = "callsT" -> {EmptyM} \cup {[EmptyM EXCEPT !.calls = <<c>>] : c \in CallsT(i)}
     [] Fam = "calls2" -> {EmptyM} \cup {[EmptyM EXCEPT !.calls = <<c>>] : c \in Calls2(i)}
                          \cup {[EmptyM EXCEPT !.calls = <<c, [d EXCEPT !.args = Tok("v", i)]>>] : c \in Calls2(i), d \in Calls2(i)}
+    [] Fam = "many" -> {[EmptyM EXCEPT !.calls = [k \in 1..13 |-> Call(-1, "c" \o ToString(i) \o "_" \o ToString(k), "", "", "")]],   \* > 12 calls: sort stability
+                        [EmptyM EXCEPT !.calls = <<Call(1, "p", "", "", Tok("u", i))>>], [EmptyM EXCEPT !.calls = <<Call(0, "", "", "", Tok("u", i))>>]}
     [] Fam = "meta" -> {Msg("", "", "", c) : c \in {"", Tok("x", i)}}
                        \cup {[EmptyM EXCEPT !.meta = m] : m \in {Meta("", FALSE, 0, 0, 0), Meta("f1", FALSE, 0, 0, 0), Meta("f2", FALSE, 0, 0, 0),
                                                                  Meta("", TRUE, 1, 2, 3), Meta("", TRUE, 2, 1, 3), Meta("f1", TRUE, 0, 0, 0), Meta("", TRUE, 3, 3, 6)}}
@@ -51,7 +53,7 @@ Alphabet(i) ==
     [] Fam = "int" -> {[n |-> 0], [n |-> 1], [n |-> 2]}
     [] Fam = "acc" -> {[s |-> "", n |-> 0], [s |-> Tok("x", i), n |-> 1], [s |-> "", n |-> 2]}
     [] Fam = "plain" -> {[n |-> 0], [n |-> 1], [n |-> 2]}
-Kind == CASE Fam \in {"hdr", "calls", "callsT", "calls2", "meta", "extra"} -> "msg" [] OTHER -> Fam
+Kind == CASE Fam \in {"hdr", "calls", "callsT", "calls2", "many", "meta", "extra"} -> "msg" [] OTHER -> Fam
 Paths == IF Kind = "msg" THEN {"cm", "cms"} ELSE {"ci"}      \* "graph" behaves as "cms" / "ci" in the transcription
 
 Init == cs = <<>> /\ Fam \in Fams
